@@ -138,6 +138,20 @@ Theorem reads_scaled_by_normalization_value : forall raw_p raw_e raw_d ops,
 Proof. exact reads_consistent. Qed.
 Print Assumptions reads_scaled_by_normalization_value.
 
+(* calc_ee_at_radius / calc_radius_at_ee are reads too ([is_read] covers them, so they may be
+   interleaved anywhere in the histories above); after ANY history both work on the current
+   profile = fresh profile / normalization_value (observation [OI p] / [ORc p]: the profile the
+   interpolator is built on; [OErr]: a NaN knot makes PchipInterpolator raise) *)
+Theorem interpolators_follow_current_profile : forall raw_p raw_e raw_d ops,
+  exists q p, ~ (q == 0)%Q /\ veq (nv (fst (run fixed raw_p raw_e raw_d ops init))) (Some q) /\
+              lveq p (map (vdiv (Some q)) raw_p) /\
+              snd (step fixed raw_p raw_e raw_d ORi (fst (run fixed raw_p raw_e raw_d ops init))) = ORc p /\
+              (snd (step fixed raw_p raw_e raw_d OEe (fst (run fixed raw_p raw_e raw_d ops init))) = OI p \/
+               (snd (step fixed raw_p raw_e raw_d OEe (fst (run fixed raw_p raw_e raw_d ops init))) = OErr /\
+                all_some p = None)).
+Proof. exact interpolators_see_current_profile. Qed.
+Print Assumptions interpolators_follow_current_profile.
+
 (* the three defects of /repo HEAD, on the faithful model of HEAD (witnesses replayed on the
    implementation by the harness: signatures ...data_profile-first-read-order,
    ...non-finite-normalization, ...monotone-prefix-last-point) *)
